@@ -81,6 +81,21 @@ pub fn run(rep: &mut Report, thorough: bool) {
             f.sip = [srv6(), srv6b(), Ip::parse("2001:db8::2")][(i / 12) as usize];
             f.icmp_echo(9, 9, b"src")
         });
+        // IPv4 flags / fragment-offset word: all 65536 values on an echo request (the responder does
+        // not reassemble and does not look at these fields; a first fragment carries the whole echo)
+        sweep_frames(rep, cfg, &format!("echo4-frag-word-{}", tag), "IPv4 flags + fragment offset word 0..65535 on an echo request", 65536, |i| {
+            let mut fr = flow4(1, 1).icmp_echo(0x1234, 7, b"fragment?");
+            fr[20] = (i >> 8) as u8;
+            fr[21] = i as u8;
+            // header checksum recomputed
+            fr[24] = 0;
+            fr[25] = 0;
+            let c = crate::wire::ones_sum(&[&fr[14..34]]);
+            let c = !c;
+            fr[24] = (c >> 8) as u8;
+            fr[25] = c as u8;
+            fr
+        });
         // link-layer trailers: bytes after the IP datagram (Ethernet padding of short frames, FCS
         // remnants) are not part of the message
         let dims = [4u64, 21, 20, 2];
